@@ -52,6 +52,9 @@ fn scenes(m: Method, backward: bool) -> Vec<Scene> {
     v.push(mk(lin2(), 1.0, 1e-5, 0.0, true));
     v.push(mk(base(Base::Logistic(2.0)), 1.5, 1e-5, 1e-8, false));
     v.push(mk(base(Base::Harmonic(2.0)), 1.5, 1e-5, 1e-8, false));
+    // the same oscillator in units of 1e-14 (span 1.5e-14): nothing in the protocol may depend on an
+    // absolute time scale
+    v.push(mk(crate::problems::timescale(&base(Base::Harmonic(2.0)), 1e14), 1.5e-14, 1e-5, 1e-8, false));
     v
 }
 
@@ -210,6 +213,11 @@ fn check_run(key: &str, m: Method, sc: &Scene, script: &[(usize, Ans)], base_run
                 let (q, bq) = (&recs[j], &b.recs[j]);
                 if q.x.to_bits() != bq.x.to_bits() || q.y.iter().zip(&bq.y).any(|(u, v)| u.to_bits() != (v * fac).to_bits()) {
                     viol!("equivariance", format!("callback {}: (x,y)=({:e},{:?}) but {}x baseline is ({:e},{:?})", j, q.x, q.y, fac, bq.x, bq.y.iter().map(|v| v * fac).collect::<Vec<_>>()));
+                    break;
+                }
+                // the interpolant of the step that led here is scaled like its end state (its interior, too)
+                if j >= 1 && q.has_interp && bq.has_interp && q.at_mid.iter().zip(&bq.at_mid).any(|(u, v)| u.to_bits() != (v * fac).to_bits()) {
+                    viol!("equivariance-interpolant", format!("callback {}: interpolant(midpoint) = {:?} but {}x baseline is {:?}", j, q.at_mid, fac, bq.at_mid.iter().map(|v| v * fac).collect::<Vec<_>>()));
                     break;
                 }
                 if let Some((_, Ans::Modified(f))) = script.iter().find(|(k, _)| *k == j) {
